@@ -20,7 +20,8 @@ CONFIG = {
             "(every event class, restricted joins, third-party invites with real signatures) with unrelated same-room state added: the REAL "
             "Allowed on the full provider, on the reversed + extended provider and on the provider restricted to StateNeededForAuth(e).Tuples(); "
             "spec stream = the model's verdict on the restricted provider, three times; the same with member events under test whose "
-            "content spells membership / join_authorised_via_users_server in another letter case (public and restricted rooms, all versions); "
+            "content spells membership / join_authorised_via_users_server another way (Capitalised, UPPER, U+017F) alone or next to the exact "
+            "name with another value - member names are exact for the check and for StateNeededForAuth alike (public and restricted rooms, all versions); "
             "ctx.addauth: the REAL EventBuilder.AddAuthEvents (StateNeededForProtoEvent + AuthEventReferences + the create-stripping branch of "
             "version 12) selects the references for a new event shaped like the event under test: Allowed on the full provider vs on exactly the "
             "selected events, and the reference set vs the model's selectNeeded; ctx.seq also: same-ID pattern (two different power-levels / "
